@@ -4,11 +4,16 @@
   Proved here for the CBOR encoder mirror, for EVERY event stream (well-formed or not, all
   extended events) and EVERY fault index k: with a writer that fails from its k-th Write on,
   `run` reports success iff no Write failed, and when a Write fails the very event that
-  issued it returns the error (the run stops there).  The CBOR parser / visitor-fault
-  direction and the other components: executable mirror with fault injection +
-  correspondence over exhaustive fault indices + oracle.
+  issued it returns the error (the run stops there); and for the CBOR parser mirror, for EVERY
+  byte string, chunking and fault index: if the visitor returns an error from its k-th event,
+  the parser returns THAT error and the failing event is the last one delivered.  The other
+  components: executable mirror with fault injection + correspondence over exhaustive fault
+  indices + oracle.
 -/
 import SF.Cbor.Enc
+import SF.Proofs.CborFault
+import SF.Proofs.CborNoPanic
+import SF.Proofs.CborFailAt
 namespace SF.Props.C16
 open SF SF.Cbor SF.Cbor.Enc
 
@@ -100,5 +105,114 @@ theorem clean_init (k : Option Nat) : Clean ({ failFrom := k } : Writer) := by
 from event index 2 (the string), nothing after it is attempted -/
 example : (run { w := { failFrom := some 2 } } [.ev (.arrStart 2 0), .ev (.num .u8 1), .ev (.str [0x61, 0x62]), .ev .arrEnd]).2
     = some 2 := by decide +kernel
+
+/-! ### the parser side: visitor errors -/
+
+open SF.Cbor.Parse in
+/-- feedUntil under a possibly failing visitor -/
+theorem feedUntil_fault (f : Nat) (p : Parse.P) (b : Bytes) (h : Parse.NoFault p)
+    (herr : p.err ≠ some .visitor) :
+    Parse.GoodOut (Parse.feedUntil f p b).p (Parse.feedUntil f p b).err := by
+  induction f generalizing p b with
+  | zero => exact Parse.good_of_noFault h (by simp [Parse.feedUntil])
+  | succ f ih =>
+    simp only [Parse.feedUntil]
+    have h1 := Parse.execStep_good p b h herr
+    have h2 := SF.Props.C03.execStep_errf p b
+    split
+    · exact h1
+    · split
+      · exact h1
+      · rename_i hne _
+        have hnone : (Parse.execStep p b).err = none := by
+          cases he : (Parse.execStep p b).err with
+          | none => rfl
+          | some e => simp [he] at hne
+        rcases h1 with ⟨_, hq⟩ | ⟨he, _⟩
+        · exact ih _ _ hq (by rw [h2]; exact herr)
+        · rw [hnone] at he; simp at he
+
+open SF.Cbor.Parse in
+theorem feed_fault (fuel : Nat) (p : Parse.P) (b : Bytes) (h : Parse.NoFault p) (herr : p.err ≠ some .visitor) :
+    Parse.GoodOut (Parse.feed fuel p b).1 (Parse.feed fuel p b).2 := by
+  induction fuel generalizing p b with
+  | zero => exact Parse.good_of_noFault h (by simp [Parse.feed])
+  | succ fuel ih =>
+    simp only [Parse.feed]
+    split
+    · exact Parse.good_of_noFault h (by simp)
+    · have h1 := feedUntil_fault (Parse.fuelFor b) p b h herr
+      cases he : (Parse.feedUntil (Parse.fuelFor b) p b).err with
+      | some e => simp only; rw [he] at h1; exact h1
+      | none =>
+        simp only
+        rw [he] at h1
+        rcases h1 with ⟨_, hq⟩ | ⟨hv, _⟩
+        · have herr' : (Parse.feedUntil (Parse.fuelFor b) p b).p.err ≠ some .visitor := by
+            have := (SF.Props.C03.feedUntil_no_panic_errf (Parse.fuelFor b) p b)
+            rw [this]; exact herr
+          exact ih _ _ hq herr'
+        · simp at hv
+
+/-- C16 for the CBOR parser: for EVERY byte string (valid or not) and EVERY fault index k —
+with a visitor that returns an error from its k-th event on, `cborl.Parse` either never
+reached event k (at most k events delivered, and any error is the parser's own), or it
+returns THE VISITOR'S error and event k is the last event delivered: nothing of the document
+reaches the visitor after its error -/
+theorem parser_returns_visitor_error (k : Nat) (b : Bytes) :
+    let r := Parse.parse { failAt := some k } b
+    (r.2 ≠ some .visitor ∧ r.1.evs.length ≤ k) ∨ (r.2 = some .visitor ∧ r.1.evs.length = k + 1) := by
+  have hp0 : Parse.NoFault ({ failAt := some k } : Parse.P) := by
+    intro k' _; simp
+  have h := feed_fault (2 * b.length + 2) { failAt := some k } b hp0 (by simp)
+  simp only [Parse.parse, Parse.feedAll]
+  cases hf : Parse.feed (2 * b.length + 2) { failAt := some k } b with
+  | mk q e =>
+    rw [hf] at h
+    have hfa : q.failAt = some k := by
+      have := SF.Props.C16F.feed_fAt (2 * b.length + 2) { failAt := some k } b
+      rw [hf] at this; simpa using this
+    cases e with
+    | some e =>
+      simp only
+      rcases h with ⟨hne, hq⟩ | ⟨he, k', hk', hl⟩
+      · exact Or.inl ⟨hne, hq k hfa⟩
+      · rw [hfa] at hk'; cases hk'; exact Or.inr ⟨he, hl⟩
+    | none =>
+      simp only
+      rcases h with ⟨_, hq⟩ | ⟨he, _⟩
+      · left
+        refine ⟨?_, hq k hfa⟩
+        simp only [Parse.finalize]; split <;> simp
+      · simp at he
+
+/-- … and the same for ANY chunking through `Write` (each `Write` either returns the visitor's
+error with delivery stopped at event k, or no visitor error and at most k events so far) -/
+theorem writeChunks_returns_visitor_error (cs : List Bytes) (p : Parse.P) (h : Parse.NoFault p)
+    (herr : p.err = none) :
+    Parse.GoodOut (Parse.writeChunks p cs).1 (Parse.writeChunks p cs).2 := by
+  induction cs generalizing p with
+  | nil =>
+    simp only [Parse.writeChunks]
+    exact Parse.good_of_noFault h (by simp only [Parse.finalize]; split <;> simp)
+  | cons c cs ih =>
+    simp only [Parse.writeChunks, Parse.write, Parse.feedAll]
+    have h1 := feed_fault (2 * c.length + 2) p c h (by rw [herr]; simp)
+    cases hf : Parse.feed (2 * c.length + 2) p c with
+    | mk q e =>
+      rw [hf] at h1
+      cases e with
+      | some e =>
+        simp only
+        exact Parse.goodOut_congr (p := q) rfl rfl h1
+      | none =>
+        simp only
+        rcases h1 with ⟨_, hq⟩ | ⟨he, _⟩
+        · exact ih _ (Parse.noFault_congr (p := q) rfl rfl hq) rfl
+        · simp at he
+
+/-- non-vacuity: the visitor fails at its 3rd event (index 2) of `[1, [2, 3]]` -/
+example : (Parse.parse { failAt := some 2 } [0x82, 0x01, 0x82, 0x02, 0x03]).2 = some .visitor ∧
+    (Parse.parse { failAt := some 2 } [0x82, 0x01, 0x82, 0x02, 0x03]).1.evs.length = 3 := by decide +kernel
 
 end SF.Props.C16
